@@ -162,12 +162,14 @@ def variant_kwargs(path, cls, rng, base):
            and name in ('Kenamond1', 'Kenamond3')]
     if not cands and not vec:
         return None
-    if vec and (not cands or rng.random() < 0.7):
+    if vec:
+        # the detonator is always moved off its default (the origin hides a frame shift done in place: seeded C09-9 / C13-9)
         p = rng.choice(sorted(vec))
         kw[p] = (np.asarray(getattr(cls, p), dtype=float) + np.array([rng.uniform(0.05, 0.3) for _ in getattr(cls, p)])).tolist()
         if 'geometry' in kw and len(kw[p]) != kw['geometry']:
             kw[p] = kw[p][:kw['geometry']]
-        return kw
+        if not cands or rng.random() < 0.5:
+            return kw
     p = rng.choice(sorted(cands))
     kw[p] = getattr(cls, p) * (1.0 + rng.choice([-1, 1]) * rng.uniform(0.02, 0.05))
     return kw
